@@ -1,8 +1,8 @@
 META = {
- 'manifest': {'text': 'Bounded symbolic model checking of the real frequent_items_sketch<uint64_t> with an 8-slot map (purge above 6 active items): concrete distinct items with symbolic weights, updates and one merge that overflows the receiving map (purge during the replay of the other sketch): for every item lower <= true weight <= upper, estimate in between, upper - lower = maximum error, total weight exact, NO_FALSE_NEGATIVES / NO_FALSE_POSITIVES result-set guarantees, descending order.',
+ 'manifest': {'text': 'Bounded symbolic model checking of the real frequent_items_sketch<uint64_t> with an 8-slot map (purge above 6 active items): concrete distinct items with symbolic weights, updates and one merge that overflows the receiving map (purge during the replay of the other sketch): for every item lower <= true weight <= upper, estimate in between, upper - lower = maximum error, total weight exact, NO_FALSE_NEGATIVES / NO_FALSE_POSITIVES result-set guarantees, descending order. Unit level: one purge step (subtract_and_keep_positive_only) of the real 8-slot reverse-purge map with symbolic values and a symbolic amount, from key layouts whose clusters wrap around the table end: survivors stay findable with value - amount, the rest are removed, counts agree.',
               'note': 'item values and all but one weight concrete (a symbolic weight makes the zero-weight early return a symbolic branch; each one doubles the state symex keeps), one weight symbolic 1..1000; merges that purge during the replay and the result-set queries are thorough-only; the epsilon clause, string items and serialization outside'},
- 'functions_encoded': ['frequent_items_sketch::update/merge/get_estimate/get_lower_bound/get_upper_bound/get_maximum_error/get_total_weight/get_frequent_items', 'reverse_purge_hash_map::adjust_or_insert/resize/purge/subtract_and_keep_positive_only/hash_delete/get/internal_adjust_or_insert', 'std::nth_element instantiation (median of the purge sample)', 'std::sort of the result rows'],
- 'bounds': 'lg_max_map_size = lg_start = 3 (8 slots); <= 7 distinct concrete items, ONE symbolic weight 1..1000 (others concrete); one purge (7th item) or one merge without purge in the quick tier',
+ 'functions_encoded': ['frequent_items_sketch::update/merge/get_estimate/get_lower_bound/get_upper_bound/get_maximum_error/get_total_weight/get_frequent_items', 'reverse_purge_hash_map::adjust_or_insert/resize/purge/subtract_and_keep_positive_only/hash_delete/get/internal_adjust_or_insert', 'std::nth_element instantiation (median of the purge sample)', 'std::sort of the result rows', 'reverse_purge_hash_map::subtract_and_keep_positive_only / hash_delete / get / adjust_or_insert called directly (unit level)'],
+ 'bounds': 'lg_max_map_size = lg_start = 3 (8 slots); <= 7 distinct concrete items, ONE symbolic weight 1..1000 (others concrete); one purge (7th item) or one merge without purge in the quick tier; purge step: 3..6 concrete keys in 6 (quick) / 9 (thorough) home-slot layouts, values and amount symbolic 0..10^6',
  'stubs': [], 'assumes': [], 'outside': ['epsilon bound (needs the purge-sample statistics)', 'symbolic item values (probe sequences)', 'larger maps, map growth, string items'],
 }
 def queries(tier):
@@ -12,6 +12,22 @@ def queries(tier):
         qs.append(Q(f'fi_a{na}_b{nb}_ov{ov}_m{mg}_s{ns}', 'fi', 'c12_fi.c', defs=dict({'NA': na, 'NB': nb, 'OV': ov, 'MERGE': mg, 'NSYM': ns}, **({'SYMPOS': 0} if mg else {})), unwind=12,
                     unwindset={'^(harness|weight|verif_mem.*|verif_new.*)$': 40, 'introselect|heap_select|insertion_sort|adjust_heap|unguarded': 9}, timeout=(500 if tier == 'quick' else 3000), native_vectors=200,
                     c_defs=dict({'VERIF_NEW_CAPN': 16, 'VERIF_VEC_CAP': 10}, **({'VERIF_CUT_FI_PURGE': None} if na + nb - ov <= 6 else {})), mem_gb=(20 if tier == 'quick' else 28)))
+    # unit-level purge step on the 8-slot map: concrete keys with chosen home slots (clusters that wrap around the table end, clusters in the middle,
+    # a full table), symbolic values and purge amount
+    def fmix64(k):
+        M = (1 << 64) - 1
+        k ^= k >> 33; k = (k * 0xff51afd7ed558ccd) & M; k ^= k >> 33; k = (k * 0xc4ceb9fe1a85ec53) & M; k ^= k >> 33; return k
+    def keys_for(homes):
+        out, k = [], 1
+        for h in homes:
+            while (fmix64(k) & 7) != h or k in out: k += 1
+            out.append(k); k = 1
+        return out
+    patterns = [(6, 7, 7), (7, 7, 7, 0), (6, 6, 7, 7, 6), (5, 7, 6, 7, 0, 7), (1, 1, 2, 1), (3, 3, 7, 7, 0, 0)] + ([(7, 6, 5, 7, 6, 5), (0, 0, 0, 7, 7, 7), (2, 3, 4, 2, 3, 4)] if tier == 'thorough' else [])
+    for hs in patterns:
+        ks = keys_for(hs)
+        qs.append(Q('fi_purge_step_h' + ''.join(map(str, hs)), 'fi', 'c12_purge.c', defs={'KEYS': ','.join(f'{k}ull' for k in ks), 'HOMES': ','.join(f'{h}u' for h in hs)}, unwind=10,
+                    unwindset={'^(harness|verif_mem.*|verif_new.*)$': 40}, timeout=(400 if tier == 'quick' else 1500), native_vectors=300, c_defs={'VERIF_NEW_CAPN': 16, 'VERIF_VEC_CAP': 10}, mem_gb=12))
     # merges that PURGE during the replay of the other sketch: the stream is concrete (symex constant-folds the whole history), only the
     # queried item is symbolic: the bracket must hold for every item of the domain
     for (na, nb, ov) in []:   # attempted: (5,3,0), (6,2,1), (6,3,0): symex of the purge's nth_element does not fold even on this concrete data; no verdict in 400 s
